@@ -62,6 +62,11 @@ pub enum Stmt {
     Marker,
     /// C03: `$id<i>: unique-id(); $v<i>: 0;` + marker printing the id
     ModuleVars,
+    /// In a library file: `@mixin lm<id> { @include meta.load-css("<url>"); }` — defines, loads nothing.
+    DefMixin { id: u32, url: String, target: usize },
+    /// In a user of the library: `@include <ns>.lm<id>;` — the load runs on the CALLER's load stack,
+    /// with the url resolved relative to the library file.
+    CallMixin { ns: String, lib: usize, id: u32 },
     /// C03: `<ns>.$v<t>: <value>;` (optionally inside `@if true {}` or a mixin that is included)
     Assign {
         ns: String,
@@ -98,7 +103,7 @@ impl GraphSpec {
     pub fn needs_meta(f: &FileSpec) -> bool {
         f.stmts
             .iter()
-            .any(|s| matches!(s, Stmt::Load { kind: LoadKind::LoadCss, .. }))
+            .any(|s| matches!(s, Stmt::Load { kind: LoadKind::LoadCss, .. } | Stmt::DefMixin { .. }))
     }
 
     pub fn render_file(&self, i: usize) -> String {
@@ -159,6 +164,12 @@ impl GraphSpec {
                         Wrap::Media => body.push_str(&format!("@media screen {{ {call} }}\n")),
                     }
                 }
+                Stmt::DefMixin { id, url, .. } => {
+                    body.push_str(&format!("@mixin lm{id} {{ @include meta.load-css(\"{url}\"); }}\n"));
+                }
+                Stmt::CallMixin { ns, id, .. } => {
+                    body.push_str(&format!("@include {}lm{id};\n", self.ns_prefix_for(i, ns)));
+                }
                 Stmt::Marker => body.push_str(&format!("m{i} {{ f: {i}; }}\n")),
                 Stmt::ModuleVars => {
                     body.push_str(&format!(
@@ -204,6 +215,19 @@ impl GraphSpec {
             return format!("{}.", url.rsplit('/').next().unwrap_or(""));
         }
         format!("{ns}.")
+    }
+
+    /// Like `ns_prefix`, for a named namespace given directly.
+    fn ns_prefix_for(&self, i: usize, ns: &str) -> String {
+        self.ns_prefix(i, ns)
+    }
+
+    /// The load a `CallMixin` performs: (target, url) of the definition it names.
+    pub fn mixin_def(&self, lib: usize, id: u32) -> Option<(usize, &str)> {
+        self.files.get(lib)?.stmts.iter().find_map(|s| match s {
+            Stmt::DefMixin { id: d, target, url } if *d == id => Some((*target, url.as_str())),
+            _ => None,
+        })
     }
 
     pub fn build_fs(&self) -> SimFs {
@@ -397,16 +421,24 @@ pub fn graph_shrinks(g: &GraphSpec) -> Vec<GraphSpec> {
             f.stmts.retain(|s| match s {
                 Stmt::Load { target, .. }
                 | Stmt::Assign { target, .. }
+                | Stmt::DefMixin { target, .. }
                 | Stmt::Probe { target, .. } => *target != i,
+                Stmt::CallMixin { lib, .. } => *lib != i,
                 _ => true,
             });
             for s in &mut f.stmts {
                 match s {
                     Stmt::Load { target, .. }
                     | Stmt::Assign { target, .. }
+                    | Stmt::DefMixin { target, .. }
                     | Stmt::Probe { target, .. } => {
                         if *target > i {
                             *target -= 1;
+                        }
+                    }
+                    Stmt::CallMixin { lib, .. } => {
+                        if *lib > i {
+                            *lib -= 1;
                         }
                     }
                     _ => {}
@@ -428,7 +460,7 @@ pub fn graph_shrinks(g: &GraphSpec) -> Vec<GraphSpec> {
                 // statements that go through this namespace go too
                 let ns = ns.clone();
                 n.files[i].stmts.retain(|s| match s {
-                    Stmt::Assign { ns: a, .. } | Stmt::Probe { ns: a, .. } => *a != ns,
+                    Stmt::Assign { ns: a, .. } | Stmt::Probe { ns: a, .. } | Stmt::CallMixin { ns: a, .. } => *a != ns,
                     _ => true,
                 });
             }
@@ -516,6 +548,26 @@ pub fn graph_shrinks(g: &GraphSpec) -> Vec<GraphSpec> {
         let mut n = g.clone();
         n.merge_imports = false;
         out.push(n);
+    }
+    // a call whose definition is gone goes too
+    for n in &mut out {
+        let defs: Vec<(usize, u32)> = n
+            .files
+            .iter()
+            .enumerate()
+            .flat_map(|(i, f)| {
+                f.stmts.iter().filter_map(move |s| match s {
+                    Stmt::DefMixin { id, .. } => Some((i, *id)),
+                    _ => None,
+                })
+            })
+            .collect();
+        for f in &mut n.files {
+            f.stmts.retain(|s| match s {
+                Stmt::CallMixin { lib, id, .. } => defs.contains(&(*lib, *id)),
+                _ => true,
+            });
+        }
     }
     out
 }
